@@ -83,8 +83,9 @@ class HasStates:
     def state_transition(self, sm, newstate):
         """handle status updates"""
         status = self.get_status(newstate)
-        if sm.next_task:
-            if isinstance(sm.next_task, Stop):
+        next_task = sm.next_task  # read once: an other thread might replace it meanwhile
+        if next_task:
+            if isinstance(next_task, Stop):
                 if newstate and status is not None:
                     status = status[0], f'stopping ({status[1]})'
             elif newstate:
@@ -96,7 +97,7 @@ class HasStates:
                         status = sm.status[0], f'restarting ({status[1]})'
             else:
                 # start case
-                status = self.get_status(sm.next_task.newstate, BUSY)
+                status = self.get_status(next_task.newstate, BUSY)
         if status:
             sm.status = status
         if self.all_status_changes:
